@@ -192,10 +192,11 @@ PROPS = {
     ),
     "C06": dict(
         explanation="sets produced by an independent reference writer (in the harness) in many layouts are verified and repaired by the real decoder",
-        assumptions=["the directory search below fileIO.FindWithPrefixAndSuffix (filepath.Glob) is modelled by symFS prefix/suffix matching; the real Glob is outside this check (see DESIGN.md: the glob-metacharacter defect is not reachable by the engine)",
+        assumptions=["layout harnesses use symFS prefix/suffix matching for the directory search; the real search (defaultFileIO) is checked separately by C06_glob on a modelled directory listing (os.Stat/Open/Readdirnames)",
                      "concrete file contents; exponents from a fixed list"],
         jobs=[
             J("par2", "C06_layouts", bound="1 file in a sub-directory, 2 blocks with exponent pairs (0,1),(1,0),(2,7),(5,100),(1000,3),(3000,0); index and volume packet order: identity, reversed, rotated, evens-then-odds, duplicated; foreign-set and unknown-type packets interleaved", must_reach=["repaired"]),
+            J("par2", "C06_glob", bound="the real defaultFileIO.FindWithPrefixAndSuffix (filepath.Glob, real SSA) on a modelled directory: base names of 1..3 symbolic bytes over { a space - [ ] * ? \\ }"),
             J("par2", "C06_volume_names", bound="2 files, blocks 0..2 spread over 1..3 volume files named s.<anything>.par2 (spaces, extra dots)"),
         ],
     ),
